@@ -774,6 +774,8 @@ class ConciliationState(_WorkingState):
 
         :return: the next Supvisors state.
         """
+        # handle the processes lost with an invalidated Supvisors instance, as in the other working states
+        super()._master_next()
         # check if jobs are in progress
         if self.supvisors.starter.in_progress() or self.supvisors.stopper.in_progress():
             return SupvisorsStates.CONCILIATION
